@@ -210,6 +210,15 @@ func genPlan(r *rand.Rand) *plan {
 			o = op{kind: "reset"}
 			// after a reset the same pool shapes may be added again from the start
 			nextAdd = 0
+		case k == 13 && r.Intn(2) == 0:
+			// a shape is queried, removed, added again (it gets a new id), the index is built, and the same query
+			// objects are asked again
+			pl.ops = append(pl.ops, op{kind: "ceq", p: pt(), q: pt()}, op{kind: "cpq", p: pt()}, op{kind: "remove", arg: r.Intn(1 << 20)})
+			if r.Intn(2) == 0 {
+				pl.ops = append(pl.ops, op{kind: "build"}, op{kind: "ceq", p: pt(), q: pt()})
+			}
+			pl.ops = append(pl.ops, op{kind: "readd", arg: r.Intn(1 << 20)}, op{kind: "build"}, op{kind: "ceq", p: pt(), q: pt()}, op{kind: "ceq", p: pt(), q: pt()})
+			o = op{kind: "cpq", p: pt()}
 		case k < 8:
 			o = op{kind: "cpq", p: pt()}
 		case k == 8:
@@ -407,6 +416,7 @@ func oneHistory(c *mon.Case) {
 		thresholdBeforeFind = map[bool]bool{}
 		addedSinceBuild = true
 	}
+	var removed []int
 	for _, o := range pl.ops {
 		switch o.kind {
 		case "add":
@@ -419,9 +429,21 @@ func oneHistory(c *mon.Case) {
 			}
 			k := o.arg % len(cur)
 			idx.Remove(pl.pool[cur[k]].Shape)
+			removed = append(removed, cur[k])
 			cur = append(cur[:k:k], cur[k+1:]...)
 			modified()
 			c.Count("ops.remove", 1)
+			nontrivial = true
+		case "readd":
+			if len(removed) == 0 {
+				continue
+			}
+			k := o.arg % len(removed)
+			idx.Add(pl.pool[removed[k]].Shape)
+			cur = append(cur, removed[k])
+			removed = append(removed[:k:k], removed[k+1:]...)
+			modified()
+			c.Count("ops.removed_shape_added_again", 1)
 			nontrivial = true
 		case "build":
 			if built && addedSinceBuild {
@@ -432,7 +454,7 @@ func oneHistory(c *mon.Case) {
 			built, addedSinceBuild = true, false
 		case "reset":
 			idx.Reset()
-			cur = nil
+			cur, removed = nil, nil
 			cpq, ceq, eqs = nil, nil, map[bool]*s2.EdgeQuery{}
 			targets = &tcache{}
 			thresholdBeforeFind = map[bool]bool{}
